@@ -1,8 +1,8 @@
-(* Proofs/CodecErrStrict.v — C08, decode side: strict fixed-width types are decoded from exactly
-   their width (no value from a short buffer), and BufferEmptyError is raised only at the end of
-   the buffer. *)
+(* Proofs/CodecErrStrict.v — C08, decode side: fixed-width types are decoded from exactly their
+   width and strings from what their prefix announces (no value from a short buffer), and
+   BufferEmptyError is raised only at the end of the buffer. *)
 From PV Require Import Base.Bytes Base.BytesLemmas Base.Res.
-From PV Require Import Gen.Types Gen.CodecFacts Model.Codec Model.CodecDom.
+From PV Require Import Gen.Types Gen.CodecFacts Model.Codec.
 From PV Require Import Proofs.CodecErrDefs Proofs.CodecErrBase Proofs.CodecErrDec.
 From Coq Require Import ZifyBool.
 Open Scope Z_scope.
@@ -23,11 +23,36 @@ Definition Strict (w : nat) (dec : bytes -> dres) : Prop := forall bs, sshape w 
 Lemma sshape_wrap w bs r : sshape w bs r -> sshape w bs (dwrap r).
 Proof. destruct r; cbn; auto. Qed.
 
-Lemma int_decode_strict sg w : (0 < w)%nat -> Strict w (int_decode sg w).
+(* sequencing two strict steps *)
+Lemma sshape_bind w1 w2 bs r f :
+  sshape w1 bs r -> (forall v x, r = DOk v x -> sshape w2 x (f v x)) -> sshape (w1 + w2) bs (dbind r f).
 Proof.
-  intros Hw bs. pose proof (int_decode_shape sg w bs) as H. destruct (int_decode sg w bs); cbn; auto.
-  - tauto.
-  - destruct H as [-> [->|H]]; [cbn; split; [reflexivity|lia]|lia].
+  intros H1 H2. destruct r as [v x|e|x|]; cbn [dbind]; cbn in H1; auto.
+  - specialize (H2 v x eq_refl). destruct (f v x); cbn in *; auto; [lia|]. destruct H2. split; [assumption|lia].
+  - cbn. destruct H1. split; [assumption|lia].
+Qed.
+
+(* a continuation that returns a value and the rest it was given, or fails *)
+Definition keeps_rest (k : bytes -> bytes -> dres) : Prop :=
+  forall d r, match k d r with DOk _ x => x = r | DErr _ => True | _ => False end.
+
+Lemma stream_read_strict n bs k : 0 <= n -> keeps_rest k -> sshape (Z.to_nat n) bs (stream_read n bs k).
+Proof.
+  intros Hn Hk. destruct (stream_read_cases n bs k)
+    as (d & r & Ht & [(-> & Hn0 & ->)|[(-> & Hn0 & ->)|[(Hd & Hl & ->)|(Hd & Hl & ->)]]]); try exact I.
+  - destruct (stream_read_empty _ _ _ Ht Hn0) as [-> ->]. cbn [sshape length]. split; [reflexivity|lia].
+  - pose proof (stream_take_split _ _ _ _ Ht) as ->. specialize (Hk [] r). destruct (k [] r); cbn [sshape] in *; auto; try contradiction. subst. cbn [app]. lia.
+  - pose proof (stream_take_full _ _ _ _ Ht Hn Hl) as Hf. pose proof (stream_take_split _ _ _ _ Ht) as ->.
+    specialize (Hk d r). destruct (k d r); cbn [sshape] in *; auto; try contradiction. subst. rewrite app_length. lia.
+Qed.
+
+Lemma text_keeps_rest enc : keeps_rest (fun data r2 => match text_decode enc data with Ok s => DOk (VStr s) r2 | Err e => DErr e end).
+Proof. intros d r. destruct (text_decode enc d); cbn; auto. Qed.
+
+Lemma int_decode_strict sg w : Strict w (int_decode sg w).
+Proof.
+  intros bs. pose proof (int_decode_shape sg w bs) as H. destruct (int_decode sg w bs); cbn; auto.
+  destruct H as (-> & -> & Hw). split; [reflexivity|exact Hw].
 Qed.
 Lemma bool_decode_strict : Strict 1 bool_decode.
 Proof.
@@ -39,55 +64,60 @@ Proof.
   intros bs. pose proof (real_decode_shape dbl bs) as H. destruct (real_decode dbl bs); cbn; auto.
   destruct H as [-> ->]. cbn. split; [reflexivity|destruct dbl; lia].
 Qed.
-Lemma bits_decode_strict w : (0 < w)%nat -> Strict w (bits_decode w).
+Lemma bits_decode_strict w : Strict w (bits_decode w).
 Proof.
-  intros Hw bs. unfold bits_decode. apply sshape_wrap.
-  pose proof (int_decode_strict false w Hw bs) as H. destruct (int_decode false w bs); cbn in *; auto.
+  intros bs. unfold bits_decode. apply sshape_wrap.
+  pose proof (int_decode_strict false w bs) as H. destruct (int_decode false w bs); cbn in *; auto.
 Qed.
 Lemma ip_decode_strict : Strict 4 ip_decode.
 Proof.
-  intros bs. unfold ip_decode. apply sshape_wrap.
-  destruct (stream_read_cases 4 bs (fun data rest =>
-      match data with
-      | [a; b; c; d] => DOk (VStr (dec3 a ++ [46] ++ dec3 b ++ [46] ++ dec3 c ++ [46] ++ dec3 d)) rest
-      | _ => DErr (Foreign ValueError)
-      end)) as (d & r & Ht & [[-> ->]|[Hd ->]]).
-  - apply stream_take_nil in Ht as [-> [->|H]]; [cbn; split; [reflexivity|lia]|lia].
-  - apply stream_take_split in Ht. subst bs.
-    destruct d as [|a [|b [|c [|d' [|? ?]]]]]; cbn; auto.
+  intros bs. unfold ip_decode. apply sshape_wrap. apply (stream_read_strict 4); [lia|].
+  intros d r. destruct d as [|a [|b [|c [|d' [|? ?]]]]]; cbn; auto.
 Qed.
 Lemma datetime_decode_strict : Strict 6 datetime_decode.
 Proof.
   intros bs. unfold datetime_decode. rewrite named_UDINT_decode, named_UINT_decode. apply sshape_wrap.
-  pose proof (int_decode_strict false 4 ltac:(lia) bs) as H1.
-  destruct (int_decode false 4 bs) as [t r1|e|x|]; cbn [dbind]; cbn in H1; auto.
-  - pose proof (int_decode_strict false 2 ltac:(lia) r1) as H2.
-    destruct (int_decode false 2 r1) as [d r2|e|x|]; cbn [dbind]; cbn in H2 |- *; auto; [lia|].
-    destruct H2. split; [assumption|lia].
-  - cbn. destruct H1. split; [assumption|lia].
+  apply (sshape_bind 4 2); [apply int_decode_strict|]. intros t r1 _.
+  replace 2%nat with (2 + 0)%nat by reflexivity. apply sshape_bind; [apply int_decode_strict|].
+  intros d r2 _. cbn. lia.
+Qed.
+Lemma nbytes_decode_strict n : 0 <= n -> Strict (Z.to_nat n) (nbytes_decode n).
+Proof.
+  intros Hn bs. unfold nbytes_decode. apply sshape_wrap. apply stream_read_strict; [exact Hn|]. intros d r. cbn. reflexivity.
+Qed.
+Lemma fixedstr_decode_strict size lsg lw : Strict (lw + size) (fixedstr_decode size lsg lw).
+Proof.
+  intros bs. unfold fixedstr_decode. rewrite fss_enc_is. apply sshape_wrap.
+  apply sshape_bind; [apply int_decode_strict|]. intros n r1 _.
+  match goal with |- sshape size r1 (stream_read _ r1 ?k) =>
+    pose proof (stream_read_strict (Z.of_nat size) r1 k ltac:(lia)) as Hsr end.
+  rewrite Nat2Z.id in Hsr. apply Hsr.
+  intros d r. destruct (text_decode Latin1 (slice_to (as_int n) d)); cbn; auto.
+Qed.
+Lemma pccc_ascii_decode_strict : Strict 2 pccc_ascii_decode.
+Proof.
+  intros bs. unfold pccc_ascii_decode. rewrite pccc_ascii_enc_is. apply sshape_wrap. apply (stream_read_strict 2); [lia|].
+  intros d r. destruct (slc_swap d); cbn; auto.
 Qed.
 
 (* ------------------------------------------------------------------ arrays, structures *)
 Lemma decode_n_strict w dec n : Strict w dec -> Strict (n * w) (decode_n dec n).
 Proof.
-  intros Hd. induction n as [|n IH]; intros bs; cbn [decode_n]; [cbn; lia|].
-  pose proof (Hd bs) as H1. destruct (dec bs) as [v r1|e|x|]; cbn [dbind]; cbn in H1; auto.
-  - pose proof (IH r1) as H2. destruct (decode_n dec n r1) as [vs r2|e|x|]; cbn [dbind]; cbn in H2 |- *; auto.
-    + destruct vs; cbn; auto; lia.
-    + destruct H2. split; [assumption|lia].
-  - cbn. destruct H1. split; [assumption|lia].
+  intros Hd. induction n as [|n IH]; intros bs; cbn [decode_n Nat.mul]; [cbn; lia|].
+  apply sshape_bind; [apply Hd|]. intros v r1 _.
+  replace (n * w)%nat with (n * w + 0)%nat by lia. apply sshape_bind; [apply IH|].
+  intros vs r2 _. destruct vs; cbn; auto; lia.
 Qed.
+
+Lemma array_flatten_strict b vs r : sshape 0 r (array_flatten b vs r).
+Proof. unfold array_flatten. destruct b; [|cbn; lia]. destruct vs; cbn; auto. destruct (chain_vals l); cbn; auto. Qed.
 
 Lemma struct_members_strict (ds : list (key * (bytes -> dres))) (ws : list nat) :
   Forall2 (fun d w => Strict w (snd d)) ds ws ->
   forall acc, Strict (list_sum ws) (struct_decode_members ds acc).
 Proof.
   intros H. induction H as [|[k dec] w ds ws Hd _ IH]; intros acc bs; cbn [struct_decode_members list_sum fold_right]; [cbn; lia|].
-  cbn [snd] in Hd. pose proof (Hd bs) as H1. destruct (dec bs) as [v r1|e|x|]; cbn [dbind]; cbn in H1; auto.
-  - pose proof (IH (dict_set acc k v) r1) as H2. unfold list_sum in H2.
-    destruct (struct_decode_members ds (dict_set acc k v) r1) as [vs r2|e|x|]; cbn in H2 |- *; auto; try lia.
-    destruct H2. split; [assumption|lia].
-  - cbn. destruct H1. split; [assumption|lia].
+  cbn [snd] in Hd. apply sshape_bind; [apply Hd|]. intros v r1 _. apply IH.
 Qed.
 
 Lemma Forall2_map_strict {K} (D : ty -> bytes -> dres) (ms : list (K * ty)) :
@@ -96,41 +126,32 @@ Lemma Forall2_map_strict {K} (D : ty -> bytes -> dres) (ms : list (K * ty)) :
 Proof. intros H. induction H; cbn [map]; constructor; auto. Qed.
 
 (* ------------------------------------------------------------------ StructTag *)
-Lemma stag_layout_le p ms size : stag_layout_strict p ms size = true -> (p <= size)%nat.
+(* on the full image every member finds its bytes: no BufferEmptyError, no fuel *)
+Lemma stag_members_full (D : ty -> bytes -> dres) size raw (ms : list ((key * nat) * ty)) :
+  Forall (fun m => Strict (swidth (snd m)) (D (snd m)) /\ (snd (fst m) + swidth (snd m) <= size)%nat) ms ->
+  length raw = size ->
+  forall acc, match stag_decode_members (map (fun m => (fst m, D (snd m))) ms) acc raw with
+              | DOk _ _ | DErr _ => True
+              | _ => False
+              end.
 Proof.
-  revert p. induction ms as [|[[k off] t] ms IH]; intros p; cbn [stag_layout_strict].
-  - intros H. apply Nat.leb_le in H. exact H.
-  - intros H. apply andb_prop in H as [H1 H2]. apply Nat.leb_le in H1. apply IH in H2. lia.
+  intros H Hraw. induction H as [|[[k off] t] ms [Hd Hoff] _ IH]; intros acc; cbn [map stag_decode_members fst snd]; [exact I|].
+  cbn [fst snd] in Hd, Hoff. pose proof (Hd (skipn off raw)) as H1.
+  destruct (D t (skipn off raw)) as [v x|e|x|]; cbn [dbind]; cbn [sshape] in H1; auto.
+  - apply IH.
+  - destruct H1 as [_ H1]. rewrite skipn_length in H1. lia.
 Qed.
-
-Lemma stag_members_strict (D : ty -> bytes -> dres) size total (ms : list ((key * nat) * ty)) :
+(* on the exhausted buffer: a value only from members that all succeed on nothing *)
+Lemma stag_members_empty_shape (D : ty -> bytes -> dres) (ms : list ((key * nat) * ty)) :
   Forall (fun m => Strict (swidth (snd m)) (D (snd m))) ms ->
-  forall p acc sub,
-    stag_layout_strict p ms size = true -> (length sub <= total)%nat -> (total - length sub <= p)%nat ->
-    match stag_decode_members (map (fun m => (fst m, D (snd m))) ms) total acc sub with
-    | DOk _ _ => Forall (fun m => (swidth (snd m) <= total - snd (fst m))%nat) ms
-    | DEmpty _ => (total < size)%nat
-    | DErr _ => True
-    | DOutOfFuel => False
-    end.
+  forall acc, match stag_decode_members (map (fun m => (fst m, D (snd m))) ms) acc [] with
+              | DOutOfFuel => False
+              | _ => True
+              end.
 Proof.
-  intros H. induction H as [|[[k off] t] ms Hd _ IH]; intros p acc sub Hlay Hsub Hpos; cbn [map stag_decode_members fst snd].
-  - constructor.
-  - cbn [stag_layout_strict] in Hlay. apply andb_prop in Hlay as [Hp Hlay]. apply Nat.leb_le in Hp.
-    pose proof (stag_layout_le _ _ _ Hlay) as Hend. cbn [snd] in Hd.
-    set (sub1 := if (total - length sub <? off)%nat then skipn (off - (total - length sub)) sub else sub).
-    assert (Hl1 : length sub1 = (total - off)%nat).
-    { unfold sub1. destruct (total - length sub <? off)%nat eqn:E.
-      - rewrite skipn_length. apply Nat.ltb_lt in E. lia.
-      - apply Nat.ltb_ge in E. lia. }
-    pose proof (Hd sub1) as H1. destruct (D t sub1) as [v sub2|e|x|]; cbn [dbind]; cbn in H1; auto.
-    + specialize (IH (off + swidth t)%nat (dict_set acc k v) sub2 Hlay).
-      assert (Ha : (length sub2 <= total)%nat) by lia.
-      assert (Hb : (total - length sub2 <= off + swidth t)%nat) by lia.
-      specialize (IH Ha Hb).
-      destruct (stag_decode_members _ total (dict_set acc k v) sub2); auto.
-      constructor; [cbn [fst snd]; lia|exact IH].
-    + destruct H1 as [_ H1]. lia.
+  intros H. induction H as [|[[k off] t] ms Hd _ IH]; intros acc; cbn [map stag_decode_members fst snd]; [exact I|].
+  rewrite skipn_nil. cbn [snd] in Hd. pose proof (Hd []) as H1.
+  destruct (D t []) as [v x|e|x|]; cbn [dbind]; cbn in H1; auto. apply IH.
 Qed.
 
 Lemma stag_bits_ok bits raw : forall acc d, stag_decode_bits bits raw acc = Ok d ->
@@ -143,25 +164,34 @@ Proof.
 Qed.
 
 Lemma structtag_strict (D : ty -> bytes -> dres) ms bits priv size :
-  Forall (fun m => Strict (swidth (snd m)) (D (snd m))) ms ->
-  stag_layout_strict 0 ms size = true -> stag_tight ms bits size = true ->
+  Forall (fun m => Strict (swidth (snd m)) (D (snd m)) /\ (snd (fst m) + swidth (snd m) <= size)%nat) ms ->
+  (size = 0%nat \/ Exists (fun d : (key * nat) * (bytes -> dres) => Lt (snd d)) (map (fun m => (fst m, D (snd m))) ms) \/ bits <> []) ->
   Strict size (structtag_decode (map (fun m => (fst m, D (snd m))) ms) bits priv size).
 Proof.
-  intros Hms Hlay Htight bs. unfold structtag_decode. apply sshape_wrap.
+  intros Hms Hne bs. unfold structtag_decode. apply sshape_wrap.
   set (raw := firstn size bs).
   assert (Hraw : length raw = Nat.min size (length bs)) by (unfold raw; apply firstn_length).
-  pose proof (stag_members_strict D size (length raw) ms Hms 0%nat [] raw Hlay (le_n _) ltac:(lia)) as Hm.
-  destruct (stag_decode_members _ (length raw) [] raw) as [v x|e|x|]; cbn; auto.
-  - destruct v; cbn; auto. destruct (stag_decode_bits bits raw d) eqn:Eb; cbn; auto.
-    rewrite skipn_length. cut (size <= length bs)%nat; [lia|].
-    unfold stag_tight in Htight. apply orb_prop in Htight as [Ht|Ht]; [apply orb_prop in Ht as [Ht|Ht]|].
-    + apply Nat.eqb_eq in Ht. lia.
-    + apply existsb_exists in Ht as (m & Hin & Ht). apply andb_prop in Ht as [Hw Ht].
-      apply Nat.ltb_lt in Hw. apply Nat.eqb_eq in Ht. rewrite Forall_forall in Hm. specialize (Hm m Hin). cbn beta in Hm. lia.
-    + apply existsb_exists in Ht as (b & Hin & Ht). apply Nat.eqb_eq in Ht.
-      apply stag_bits_ok in Eb. rewrite Forall_forall in Eb. specialize (Eb b Hin). cbn beta in Eb. lia.
-  - assert (Hs : (length bs < size)%nat) by lia. split; [|exact Hs].
-    apply skipn_all2. lia.
+  destruct (negb (length raw =? 0)%nat && (length raw <? size)%nat) eqn:Eshort; [exact I|].
+  assert (Hcase : length raw = size \/ (length raw = 0%nat /\ (0 < size)%nat)).
+  { apply andb_false_iff in Eshort as [E|E].
+    - apply negb_false_iff, Nat.eqb_eq in E. destruct size; [left; lia|right; lia].
+    - apply Nat.ltb_ge in E. left. lia. }
+  destruct Hcase as [Hfull|[Hemp Hs]].
+  - pose proof (stag_members_full D size raw ms Hms Hfull []) as Hm.
+    destruct (stag_decode_members _ [] raw) as [v x|e|x|]; cbn; auto; try contradiction.
+    destruct v; cbn; auto. destruct (stag_decode_bits bits raw d); cbn; auto.
+    rewrite skipn_length. lia.
+  - assert (Hbs : bs = []) by (destruct bs; [reflexivity|cbn in Hraw; lia]).
+    assert (Hr : raw = []) by (destruct raw; [reflexivity|discriminate]).
+    assert (Hms' : Forall (fun m : (key * nat) * ty => Strict (swidth (snd m)) (D (snd m))) ms)
+      by (eapply Forall_impl; [|exact Hms]; intros m [Hm _]; exact Hm).
+    pose proof (stag_members_empty_shape D ms Hms' []) as Hm. rewrite Hr.
+    destruct (stag_decode_members _ [] []) as [v x|e|x|] eqn:Em; cbn; auto; try contradiction.
+    + destruct v; cbn; auto. destruct (stag_decode_bits bits [] d) eqn:Eb; cbn; auto. exfalso.
+      destruct Hne as [Hz|[Hx|Hb]]; [lia| |].
+      * exact (stag_members_nil _ Hx _ _ _ Em).
+      * destruct (stag_bits_nil bits d Hb) as [e He]. congruence.
+    + subst bs. rewrite skipn_nil. cbn. split; [reflexivity|lia].
 Qed.
 
 (* ------------------------------------------------------------------ no value from a short buffer *)
@@ -169,16 +199,15 @@ Theorem strict_decode : forall t, strict t = true -> forall fuel, Strict (swidth
 Proof.
   induction t using ty_ind_nested; intros Hs fuel; cbn [strict] in Hs; try discriminate; cbn [decode_fuel swidth].
   - apply bool_decode_strict.
-  - apply int_decode_strict. now apply Nat.ltb_lt.
+  - apply int_decode_strict.
   - apply real_decode_strict.
   - apply datetime_decode_strict.
-  - apply bits_decode_strict. now apply Nat.ltb_lt.
+  - apply nbytes_decode_strict. lia.
+  - apply bits_decode_strict.
   - (* TArrFixed *)
     intros bs. unfold array_decode_fixed. apply sshape_wrap.
-    pose proof (decode_n_strict _ _ n (IHt Hs fuel) bs) as H.
-    destruct (decode_n (decode_fuel fuel t) n bs) as [vs r|e|x|]; cbn [dbind]; cbn in H |- *; auto.
-    destruct (is_instance t); [exact I|]. destruct (is_bits t); [|exact H].
-    destruct vs; cbn; auto. destruct (chain_vals l); cbn; auto.
+    replace (n * swidth t)%nat with (n * swidth t + 0)%nat by lia.
+    apply sshape_bind; [apply decode_n_strict, IHt, Hs|]. intros vs r _. apply array_flatten_strict.
   - (* TStruct *)
     intros bs. unfold struct_decode, struct_decode_inner. apply sshape_wrap.
     assert (Hm : Forall (fun m : key * ty => Strict (swidth (snd m)) (decode_fuel fuel (snd m))) ms).
@@ -187,17 +216,26 @@ Proof.
     destruct (struct_decode_members _ [] bs) as [v r|e|x|]; cbn [dbind]; cbn in H1 |- *; auto.
     destruct v; cbn; auto.
     destruct k; cbn; auto; destruct (identity_post _); cbn; auto.
+  - apply fixedstr_decode_strict.
   - (* TStructTag *)
-    apply andb_prop in Hs as [Hs Htight]. apply andb_prop in Hs as [Hs Hlay].
-    apply structtag_strict; auto.
-    rewrite forallb_forall in Hs. rewrite Forall_forall in H |- *. intros m Hin. apply (H m Hin), Hs, Hin.
+    apply andb_prop in Hs as [Hs Hne]. rewrite forallb_forall in Hs.
+    apply structtag_strict.
+    + rewrite Forall_forall in H |- *. intros m Hin. specialize (Hs m Hin). apply andb_prop in Hs as [Hs1 Hs2].
+      split; [apply (H m Hin), Hs1|now apply Nat.leb_le].
+    + apply orb_prop in Hne as [Hne|Hne]; [apply orb_prop in Hne as [Hne|Hne]|].
+      * left. now apply Nat.eqb_eq.
+      * right; left. apply (Exists_map_snd progress Lt (decode_fuel fuel)); [|exact Hne].
+        rewrite Forall_forall. intros m _ Hp. apply progress_lt, Hp.
+      * right; right. destruct bits; [discriminate|discriminate].
   - apply ip_decode_strict.
+  - apply pccc_ascii_decode_strict.
 Qed.
 
 (* the spec-side width of a strict type is [swidth] *)
 Lemma strict_width_of : forall t, strict t = true -> width_of t = Some (swidth t).
 Proof.
   induction t using ty_ind_nested; intros Hs; cbn [strict] in Hs; try discriminate; cbn [width_of swidth]; try reflexivity.
+  - now rewrite Hs.
   - now rewrite (IHt Hs).
   - rewrite forallb_forall in Hs. induction H as [|m ms Hm _ IH]; [reflexivity|].
     cbn [map sum_widths list_sum fold_right]. rewrite (Hm (Hs m (or_introl eq_refl))).
@@ -210,21 +248,81 @@ Proof.
   destruct t; cbn [strict] in Hs; try discriminate; unfold announced; rewrite Hw; reflexivity.
 Qed.
 
+(* ------------------------------------------------------------------ strings: the announced length *)
+(* an integer prefix decodes to the value its bytes denote and leaves the bytes after it *)
+Lemma int_decode_value sg w bs v r :
+  int_decode sg w bs = DOk v r -> v = VInt (prefix_val sg w bs) /\ r = skipn w bs /\ (w <= length bs)%nat.
+Proof.
+  unfold int_decode, elem_decode. intros E. apply dwrap_ok_inv in E.
+  destruct (stream_read_cases (Z.of_nat w) bs (fun data rest => dres_of_res (unpack_int sg w data) rest))
+    as (d & x & Ht & [(-> & Hn & Hr)|[(-> & Hn & Hr)|[(Hd & Hl & Hr)|(Hd & Hl & Hr)]]]); rewrite Hr in E; try discriminate.
+  - assert (w = 0%nat) by lia. subst w. apply stream_take_split in Ht. cbn in Ht. subst x.
+    unfold unpack_int in E. cbn in E. injection E as <- <-. unfold prefix_val. cbn. destruct sg; repeat split; auto; lia.
+  - pose proof (stream_take_full _ _ _ _ Ht ltac:(lia) Hl) as Hf. rewrite Nat2Z.id in Hf.
+    pose proof (stream_take_split _ _ _ _ Ht) as Hs. subst bs.
+    unfold unpack_int in E. rewrite Hf, Nat.eqb_refl in E. cbn in E. injection E as <- <-.
+    unfold prefix_val. rewrite <- Hf, firstn_app_exact, skipn_app_exact, app_length. repeat split; auto; lia.
+Qed.
+
+Lemma enc_char_size_width e : enc_char_size e = char_width e.
+Proof. destruct e; reflexivity. Qed.
+
+Lemma stream_read_ok_len n bs k v x :
+  stream_read n bs k = DOk v x -> 0 < n -> (forall d r, k d r = DOk v x -> True) -> n <= zlen bs.
+Proof.
+  intros E Hn _. destruct (stream_read_cases n bs k)
+    as (d & r & Ht & [(-> & _ & Hr)|[(-> & Hn0 & Hr)|[(Hd & Hl & Hr)|(Hd & Hl & Hr)]]]); try (rewrite Hr in E; discriminate); [lia|].
+  apply stream_take_split in Ht. subst bs. unfold zlen in *. rewrite app_length. lia.
+Qed.
+
+Lemma str_no_short lsg lw enc fuel bs v rest k :
+  decode_fuel fuel (TStr lsg lw enc) bs = DOk v rest -> announced (TStr lsg lw enc) bs = Some k -> k <= zlen bs.
+Proof.
+  cbn [decode_fuel announced]. unfold str_decode. intros E Ha. apply dwrap_ok_inv in E.
+  apply dbind_ok_inv in E as (n & r1 & E1 & E). apply int_decode_value in E1 as (-> & -> & Hw).
+  assert (Hlw : (lw <=? length bs)%nat = true) by now apply Nat.leb_le.
+  rewrite Hlw in Ha. injection Ha as <-. cbn [as_int] in E. rewrite enc_char_size_width in E.
+  destruct (prefix_val lsg lw bs =? 0) eqn:Ez.
+  - apply Z.eqb_eq in Ez. rewrite Ez. unfold zlen. lia.
+  - destruct (Z_lt_le_dec 0 (prefix_val lsg lw bs * char_width enc)) as [Hpos|Hneg]; [|unfold zlen; lia].
+    apply stream_read_ok_len in E; [|exact Hpos|auto]. unfold zlen in *. rewrite skipn_length in E. lia.
+Qed.
+
+Lemma stringn_no_short fuel bs v rest k :
+  decode_fuel fuel TStringN bs = DOk v rest -> announced TStringN bs = Some k -> k <= zlen bs.
+Proof.
+  intros E Ha.
+  assert (Hk : (4 <= length bs)%nat -> k = 4 + prefix_val false 2 bs * prefix_val false 2 (skipn 2 bs)).
+  { intros H4. unfold announced in Ha. apply Nat.leb_le in H4. rewrite H4 in Ha. now injection Ha. }
+  clear Ha. cbn [decode_fuel] in E. unfold stringn_decode in E. rewrite named_UINT_decode in E. apply dwrap_ok_inv in E.
+  apply dbind_ok_inv in E as (cs & r1 & E1 & E). apply int_decode_value in E1 as (-> & -> & Hw1).
+  apply dbind_ok_inv in E as (cnt & r2 & E2 & E). apply int_decode_value in E2 as (-> & -> & Hw2).
+  rewrite skipn_length in Hw2. rewrite Hk by lia. clear Hk. unfold as_int in E.
+  remember (prefix_val false 2 bs) as cs eqn:Hcs. remember (prefix_val false 2 (skipn 2 bs)) as cnt eqn:Hcnt.
+  destruct (stringn_enc cs); [|discriminate].
+  destruct (cnt =? 0) eqn:Ez.
+  - apply Z.eqb_eq in Ez. rewrite Ez. unfold zlen. lia.
+  - destruct (Z_lt_le_dec 0 (cnt * cs)) as [Hpos|Hneg]; [|unfold zlen; lia].
+    apply stream_read_ok_len in E; [|exact Hpos|auto]. unfold zlen in *. rewrite !skipn_length in E. lia.
+Qed.
+
 (* ------------------------------------------------------------------ BufferEmptyError only at the end *)
 Definition AtEnd (dec : bytes -> dres) : Prop := forall bs r, dec bs = DEmpty r -> r = [].
 
 Lemma Strict_AtEnd w dec : Strict w dec -> AtEnd dec.
 Proof. intros H bs r E. specialize (H bs). rewrite E in H. now destruct H. Qed.
 
-Lemma int_decode_AtEnd sg w : (0 < w)%nat -> AtEnd (int_decode sg w).
-Proof. intros Hw. eapply Strict_AtEnd, int_decode_strict, Hw. Qed.
+Lemma int_decode_AtEnd sg w : AtEnd (int_decode sg w).
+Proof. eapply Strict_AtEnd, int_decode_strict. Qed.
 
-(* a read of a non-zero number of bytes raises BufferEmptyError only on the exhausted buffer *)
+(* a read raises BufferEmptyError only on the exhausted buffer *)
 Lemma stream_read_AtEnd n bs k r :
-  n <> 0 -> (forall d x, k d x <> DEmpty r) -> stream_read n bs k = DEmpty r -> r = [].
+  (forall d x, k d x <> DEmpty r) -> stream_read n bs k = DEmpty r -> r = [].
 Proof.
-  intros Hn Hk E. destruct (stream_read_cases n bs k) as (d & x & Ht & [[-> E']|[_ E']]); rewrite E' in E.
-  - injection E as <-. apply stream_take_nil in Ht as [-> [->|H]]; [reflexivity|contradiction].
+  intros Hk E. destruct (stream_read_cases n bs k)
+    as (d & x & Ht & [(-> & Hn & Hr)|[(-> & Hn & Hr)|[(Hd & Hl & Hr)|(Hd & Hl & Hr)]]]); rewrite Hr in E; try discriminate.
+  - injection E as <-. now destruct (stream_read_empty _ _ _ Ht Hn).
+  - exfalso. exact (Hk _ _ E).
   - exfalso. exact (Hk _ _ E).
 Qed.
 
@@ -232,42 +330,81 @@ Lemma text_result_not_empty enc data r2 r :
   (match text_decode enc data with Ok s => DOk (VStr s) r2 | Err e => DErr e end) <> DEmpty r.
 Proof. destruct (text_decode enc data); discriminate. Qed.
 
-Lemma str_decode_AtEnd lsg lw enc : (0 < lw)%nat -> AtEnd (str_decode lsg lw enc).
+Lemma str_decode_AtEnd lsg lw enc : AtEnd (str_decode lsg lw enc).
 Proof.
-  intros Hw bs r. unfold str_decode. intros E. apply dwrap_empty_inv in E.
-  apply dbind_empty_inv in E as [E|(n & r1 & _ & E)]; [exact (int_decode_AtEnd _ _ Hw _ _ E)|].
+  intros bs r. unfold str_decode. intros E. apply dwrap_empty_inv in E.
+  apply dbind_empty_inv in E as [E|(n & r1 & _ & E)]; [exact (int_decode_AtEnd _ _ _ _ E)|].
   destruct (as_int n =? 0) eqn:En; [discriminate|].
-  revert E. apply stream_read_AtEnd; [lia|]. intros. apply text_result_not_empty.
+  revert E. apply stream_read_AtEnd. intros. apply text_result_not_empty.
 Qed.
 
-Lemma nbytes_decode_AtEnd n : n <> 0 -> AtEnd (nbytes_decode n).
+Lemma stringn_decode_AtEnd : AtEnd stringn_decode.
 Proof.
-  intros Hn bs r. unfold nbytes_decode. intros E. apply dwrap_empty_inv in E.
-  revert E. apply stream_read_AtEnd; [exact Hn|]. discriminate.
+  intros bs r. unfold stringn_decode. rewrite named_UINT_decode. intros E. apply dwrap_empty_inv in E.
+  apply dbind_empty_inv in E as [E|(cs & r1 & _ & E)]; [exact (int_decode_AtEnd _ _ _ _ E)|].
+  apply dbind_empty_inv in E as [E|(cnt & r2 & _ & E)]; [exact (int_decode_AtEnd _ _ _ _ E)|].
+  destruct (stringn_enc (as_int cs)); [|discriminate].
+  destruct (as_int cnt =? 0); [discriminate|].
+  revert E. apply stream_read_AtEnd. intros. apply text_result_not_empty.
 Qed.
 
-Lemma fixedstr_decode_AtEnd size lsg lw : (0 < size)%nat -> (0 < lw)%nat -> AtEnd (fixedstr_decode size lsg lw).
+Lemma nbytes_decode_AtEnd n : AtEnd (nbytes_decode n).
 Proof.
-  intros Hs Hw bs r. unfold fixedstr_decode. destruct fss_enc; [|discriminate]. intros E. apply dwrap_empty_inv in E.
-  apply dbind_empty_inv in E as [E|(n & r1 & _ & E)]; [exact (int_decode_AtEnd _ _ Hw _ _ E)|].
-  revert E. apply stream_read_AtEnd; [lia|]. intros. apply text_result_not_empty.
+  intros bs r. unfold nbytes_decode. intros E. apply dwrap_empty_inv in E.
+  revert E. apply stream_read_AtEnd. discriminate.
 Qed.
 
 Lemma pccc_string_decode_AtEnd : AtEnd pccc_string_decode.
 Proof.
   intros bs r. unfold pccc_string_decode. destruct pccc_string_enc; [|discriminate]. rewrite named_UINT_decode.
   intros E. apply dwrap_empty_inv in E.
-  apply dbind_empty_inv in E as [E|(n & r1 & _ & E)]; [exact (int_decode_AtEnd false 2 ltac:(lia) _ _ E)|].
+  apply dbind_empty_inv in E as [E|(n & r1 & _ & E)]; [exact (int_decode_AtEnd false 2 _ _ E)|].
   destruct (stream_take 82 r1) as [d r2]. destruct (slc_swap d); [|discriminate].
   exfalso. exact (text_result_not_empty _ _ _ _ E).
 Qed.
 
-Lemma pccc_ascii_decode_AtEnd : AtEnd pccc_ascii_decode.
+Lemma named_decode_AtEnd n : AtEnd (named_decode n).
 Proof.
-  intros bs r. unfold pccc_ascii_decode. destruct pccc_ascii_enc; [|discriminate].
-  intros E. apply dwrap_empty_inv in E.
-  destruct (stream_take 2 bs) as [d r2]. destruct (slc_swap d); [|discriminate].
-  exfalso. exact (text_result_not_empty _ _ _ _ E).
+  unfold named_decode. destruct (ty_of_name n) as [[]|]; try (intros bs r; discriminate).
+  - apply str_decode_AtEnd.
+  - apply stringn_decode_AtEnd.
+Qed.
+
+(* lang = SHORT_STRING.decode(b"\x03" + stream.read(3)): BufferEmptyError only when the read
+   returned nothing, i.e. the stream is exhausted *)
+Lemma lang_decode_empty l3 x : named_decode n_SHORT_STRING (3 :: l3) = DEmpty x -> l3 = [].
+Proof.
+  rewrite named_SHORT_STRING_decode. unfold str_decode. intros E. apply dwrap_empty_inv in E.
+  apply dbind_empty_inv in E as [E|(n & r1 & E1 & E)].
+  - pose proof (int_decode_shape false 1 (3 :: l3)) as H. rewrite E in H. destruct H as (_ & H & _). discriminate.
+  - apply int_decode_value in E1 as (-> & -> & _). cbn [as_int skipn] in E.
+    unfold prefix_val in E. cbn [firstn le_dec] in E. change (3 + 256 * 0 =? 0) with false in E. cbn iota in E.
+    destruct (stream_read_cases ((3 + 256 * 0) * enc_char_size Latin1) l3
+                (fun data r2 => match text_decode Latin1 data with Ok s => DOk (VStr s) r2 | Err e => DErr e end))
+      as (d & y & Ht & [(-> & Hn & Hr)|[(-> & Hn & Hr)|[(Hd & Hl & Hr)|(Hd & Hl & Hr)]]]); rewrite Hr in E; try discriminate.
+    now destruct (stream_read_empty _ _ _ Ht Hn).
+Qed.
+
+Lemma stringi_items_AtEnd count : forall bs ss ls cs r, stringi_decode_items count bs ss ls cs = DEmpty r -> r = [].
+Proof.
+  induction count as [|c IH]; intros bs ss ls cs r; cbn [stringi_decode_items]; [discriminate|].
+  destruct (stream_take 3 bs) as [l3 r1] eqn:Ht.
+  destruct (named_decode n_SHORT_STRING (3 :: l3)) as [lang x|e|x|] eqn:El; try discriminate.
+  - destruct r1 as [|code r2]; [discriminate|].
+    destruct (zlookup stringi_string_types code) as [tn|]; [|discriminate].
+    rewrite named_UINT_decode. intros E.
+    apply dbind_empty_inv in E as [E|(chs & r3 & _ & E)]; [exact (int_decode_AtEnd _ _ _ _ E)|].
+    apply dbind_empty_inv in E as [E|(s & r4 & _ & E)]; [exact (named_decode_AtEnd _ _ _ E)|].
+    exact (IH _ _ _ _ _ E).
+  - intros E. injection E as <-. apply lang_decode_empty in El. subst l3.
+    now destruct (stream_read_empty _ _ _ Ht ltac:(lia)).
+Qed.
+
+Lemma stringi_decode_AtEnd : AtEnd stringi_decode.
+Proof.
+  intros bs r. unfold stringi_decode. rewrite named_USINT_decode. intros E. apply dwrap_empty_inv in E.
+  apply dbind_empty_inv in E as [E|(c & r1 & _ & E)]; [exact (int_decode_AtEnd _ _ _ _ E)|].
+  exact (stringi_items_AtEnd _ _ _ _ _ _ E).
 Qed.
 
 Lemma decode_n_AtEnd dec n : AtEnd dec -> AtEnd (decode_n dec n).
@@ -281,6 +418,7 @@ Lemma decode_all_not_empty dec f : forall bs r, decode_all dec f bs <> DEmpty r.
 Proof.
   induction f as [|f IH]; intros bs r; cbn [decode_all]; [discriminate|].
   destruct (dec bs) as [v r1|e|x|]; try discriminate.
+  destruct (length r1 =? length bs)%nat; [discriminate|].
   intros E. apply dbind_empty_inv in E as [E|(vs & r2 & _ & E)]; [exact (IH _ _ E)|]. destruct vs; discriminate.
 Qed.
 
@@ -295,22 +433,30 @@ Theorem buffer_empty_at_end : forall t, be_ok t = true -> forall fuel, AtEnd (de
 Proof.
   induction t using ty_ind_nested; intros Hb fuel; cbn [be_ok] in Hb; try discriminate; cbn [decode_fuel].
   - eapply Strict_AtEnd, bool_decode_strict.
-  - apply int_decode_AtEnd. now apply Nat.ltb_lt.
+  - apply int_decode_AtEnd.
   - eapply Strict_AtEnd, real_decode_strict.
   - eapply Strict_AtEnd, datetime_decode_strict.
-  - apply str_decode_AtEnd. now apply Nat.ltb_lt.
-  - apply nbytes_decode_AtEnd. apply negb_true_iff in Hb. lia.
-  - eapply Strict_AtEnd, bits_decode_strict. now apply Nat.ltb_lt.
+  - apply str_decode_AtEnd.
+  - apply stringn_decode_AtEnd.
+  - apply stringi_decode_AtEnd.
+  - apply nbytes_decode_AtEnd.
+  - eapply Strict_AtEnd, bits_decode_strict.
   - (* TArrFixed *)
     intros bs r. unfold array_decode_fixed. intros E. apply dwrap_empty_inv in E.
     apply dbind_empty_inv in E as [E|(vs & r1 & _ & E)]; [exact (decode_n_AtEnd _ n (IHt Hb fuel) _ _ E)|].
-    destruct (is_instance t); [discriminate|]. destruct (is_bits t); [|discriminate].
-    destruct vs; try discriminate. destruct (chain_vals l); discriminate.
+    exfalso. exact (array_flatten_not_empty _ _ _ _ E).
   - (* TArrPrefix *)
-    intros bs r. unfold array_decode_prefix. intros E. apply dwrap_empty_inv in E. destruct inst; [|discriminate].
-    apply dbind_empty_inv in E as [E|(? & ? & _ & E)]; [|discriminate]. cbn in Hb. exact (IHt1 Hb fuel _ _ E).
+    apply andb_prop in Hb as [Hb1 Hb2].
+    intros bs r. unfold array_decode_prefix. intros E. apply dwrap_empty_inv in E.
+    apply dbind_empty_inv in E as [E|(n & r1 & _ & E)]; [exact (IHt1 Hb1 fuel _ _ E)|].
+    destruct (match n with VInt z => Some z | VBool b0 => Some (if b0 then 1 else 0) | _ => None end) as [z|]; [|discriminate].
+    destruct (decode_n (decode_fuel fuel t2) _ r1) as [vs r2|e|x|] eqn:E2; try discriminate.
+    + destruct (count_limit <? z); [discriminate|]. exfalso. exact (array_flatten_not_empty _ _ _ _ E).
+    + injection E as <-. exact (decode_n_AtEnd _ _ (IHt2 Hb2 fuel) _ _ E2).
   - (* TArrAll *)
-    intros bs r. unfold array_decode_all. intros E. apply dwrap_empty_inv in E. exfalso. exact (decode_all_not_empty _ _ _ _ E).
+    intros bs r. unfold array_decode_all. intros E. apply dwrap_empty_inv in E.
+    apply dbind_empty_inv in E as [E|(vs & r1 & _ & E)]; exfalso;
+      [exact (decode_all_not_empty _ _ _ _ E)|exact (array_flatten_not_empty _ _ _ _ E)].
   - (* TStruct *)
     intros bs r. unfold struct_decode, struct_decode_inner. intros E. apply dwrap_empty_inv in E.
     apply dbind_empty_inv in E as [E|(v1 & r1 & _ & E)].
@@ -319,10 +465,10 @@ Proof.
       rewrite forallb_forall in Hb. rewrite Forall_forall in H. rewrite Forall_forall. intros d Hd.
       apply in_map_iff in Hd as (m & <- & Hm). cbn [snd]. apply (H m Hm), Hb, Hm.
     + destruct k; [discriminate| |]; destruct v1; try discriminate; destruct (identity_post d); discriminate.
-  - apply fixedstr_decode_AtEnd; apply andb_prop in Hb as [H1 H2]; now apply Nat.ltb_lt.
+  - eapply Strict_AtEnd, fixedstr_decode_strict.
   - (* TStructTag *)
     eapply Strict_AtEnd. apply (strict_decode (TStructTag ms bits priv size) Hb fuel).
   - eapply Strict_AtEnd, ip_decode_strict.
-  - apply pccc_ascii_decode_AtEnd.
+  - eapply Strict_AtEnd, pccc_ascii_decode_strict.
   - apply pccc_string_decode_AtEnd.
 Qed.
